@@ -698,13 +698,22 @@ class OperationUpdate:
     # endregion wait
 
 
+_EPOCH = datetime.datetime(1970, 1, 1, tzinfo=datetime.UTC)
+
+
 class TimestampConverter:
     """Converter for datetime/Unix timestamp conversions."""
 
     @staticmethod
     def to_unix_millis(dt: datetime.datetime | None) -> int | None:
         """Convert datetime to Unix timestamp in milliseconds."""
-        return int(dt.timestamp() * 1000) if dt else None
+        if not dt:
+            return None
+        if dt.tzinfo is None:
+            # naive datetimes are local time, as datetime.timestamp() reads them
+            dt = dt.astimezone()
+        # integer arithmetic: int(dt.timestamp() * 1000) can lose a millisecond to floating point rounding
+        return (dt - _EPOCH) // datetime.timedelta(milliseconds=1)
 
     @staticmethod
     def from_unix_millis(ms: int | None) -> datetime.datetime | None:
